@@ -4,6 +4,18 @@ NOT_APPLICABLE = {}
 BASE_NOTE = ("Trusted: Lean 4.33 kernel (axioms at most propext, Classical.choice, Quot.sound; audited per theorem on every run), "
              "the go/ast fact extractor and its expectations, the seeded correspondence harness (coverage reported in evidence). ")
 TEXT = {
+    "C17": dict(
+        text="Theorems no_crash (any sequence of listen / close any number of times / send / read / wake / subscribe / unsubscribe / "
+             "dial / end-of-connection never panics), no_leak (every bound service name belongs to an open socket, by an inductive "
+             "invariant, for every guard setting), all_closed_nothing_bound, conn_end_releases_socket, and witness theorems of the three "
+             "repaired defects, over a model of the socket bookkeeping. Tie: regenerated facts (what a deliverer does on cancellation, "
+             "ReadFrom's selects, the checked advertisement withdrawal, Close's steps, the dial clean-up goroutine) + scripts run on a "
+             "real node in child processes: parked deliverers, closes repeated and interleaved, subscriptions and notices, dials to a "
+             "local listener ended in three ways, pings, Shutdown; observed: survival, names still bound, ephemeral names, goroutines "
+             "left over (by creating function), background activity after Shutdown.",
+        note=BASE_NOTE + "Goroutine counts are measured (settling time up to 2 s), not proved; quic-go is trusted (a lock-order "
+             "inversion inside the vendored fork when a listener is closed while its transport fails is avoided by the harness and "
+             "described in DESIGN A.4)."),
     "C13": dict(
         text="Theorems stage_monotone, succeeded_sticks, size_monotone_while_running, cancel_write_after_exit over a step model of a "
              "command unit's record rewritten by daemon and runner (any scheduler), by an inductive invariant; "
